@@ -4,6 +4,7 @@ import (
 	"encoding/hex"
 	"encoding/json"
 	"github.com/brutella/hc/util"
+	"strings"
 )
 
 // Database stores entities
@@ -93,9 +94,19 @@ func (db *database) entityForKey(key string) (e Entity, err error) {
 		err = json.Unmarshal(b, &e)
 	}
 
+	if err == nil {
+		// The key holds the exact bytes of the name, the json string does
+		// not when the name is not valid utf-8.
+		if name, derr := hex.DecodeString(strings.TrimSuffix(key, entityKeySuffix)); derr == nil {
+			e.Name = string(name)
+		}
+	}
+
 	return
 }
 
+const entityKeySuffix = ".entity"
+
 func toEntityKey(s string) string {
-	return hex.EncodeToString([]byte(s)) + ".entity"
+	return hex.EncodeToString([]byte(s)) + entityKeySuffix
 }
